@@ -389,10 +389,23 @@ pub fn check(devs: &[usize], lang: Lang, choices: &[u32], acc: &mut Acc) {
     if !devs.is_empty() {
         acc.nontrivial.insert(report::fnv64(&format!("{names:?}|{}", lang.name())));
     }
-    let src_file = if cfg.multi_file { SrcFile { crate_name: "app_core".into(), path: "ws/app-core/src/lib.rs".into(), source: source.clone() } } else { SrcFile::single(source.clone()) };
-    let o = pipeline::run(&[src_file], lang, &cfg);
+    // multi-file mode, languages that write import declarations: a second crate, referred to through a `use` and a path
+    let with_peer = cfg.multi_file && matches!(lang, Lang::TypeScript | Lang::Kotlin);
+    let source = if with_peer { format!("use shapes::Peer;\n{source}\n#[typeshare]\npub struct UsesPeer {{ pub p: Peer, pub q: Vec<shapes::Other> }}\n") } else { source };
+    let mut src_files = vec![if cfg.multi_file { SrcFile { crate_name: "app_core".into(), path: "ws/app-core/src/lib.rs".into(), source: source.clone() } } else { SrcFile::single(source.clone()) }];
+    if with_peer {
+        src_files.push(SrcFile { crate_name: "shapes".into(), path: "ws/shapes/src/lib.rs".into(), source: "#[typeshare]\npub struct Peer { pub n: u32 }\n#[typeshare]\npub struct Other { pub o: u32 }\n".into() });
+    }
+    let o = pipeline::run(&src_files, lang, &cfg);
+    let mut further_files: Vec<String> = Vec::new();
     let text = match &o {
-        Outcome::Ok(m) => m.values().next().cloned().unwrap_or_default(),
+        Outcome::Ok(m) => {
+            // the referring crate's file first (it is the one with the import declarations)
+            let mut all: Vec<(&String, &String)> = m.iter().collect();
+            all.sort_by_key(|(k, _)| !k.to_lowercase().contains("app"));
+            further_files = all.iter().skip(1).map(|(_, v)| (*v).clone()).collect();
+            all.first().map(|(_, v)| (*v).clone()).unwrap_or_default()
+        }
         Outcome::Panic(m) => {
             acc.vios.add(Violation { sig: format!("C10|{}|panic|features={}", lang.name(), names.join("+")), detail: json!({"choices": choices, "features": names, "source": source, "panic": m}) });
             return;
@@ -411,9 +424,24 @@ pub fn check(devs: &[usize], lang: Lang, choices: &[u32], acc: &mut Acc) {
         let id = format!("case_{:016x}", report::fnv64(&format!("{source}|{}", cfg.header)));
         PY_JOBS.lock().unwrap().push(PyJob { id, text: text.clone(), detail: detail.clone(), sig_shape: shape.clone() });
     }
+    for other in &further_files {
+        if let Err(e) = extract::extract(lang, other) {
+            let mut d = detail.clone();
+            d["output"] = json!(other);
+            d["acceptor"] = json!({"line": e.line(), "message": e.msg()});
+            FAILURES.lock().unwrap().push(Failure { lang: lang.name(), class: e.class(), features: names.iter().map(|s| s.to_string()).collect(), detail: d });
+        }
+    }
     match extract::extract(lang, &text) {
-        Ok(_) => {
+        Ok(of) => {
             acc.outcomes.insert(report::fnv64(&format!("{}|accepted", lang.name())));
+            // the import declarations name both types of the other crate
+            // (Kotlin without a package: all files are in the default package and nothing is imported)
+            if with_peer && !(lang == Lang::Kotlin && cfg.package.is_empty()) && !["Peer", "Other"].iter().all(|n| of.imports.iter().any(|(_, names)| names.iter().any(|x| x.ends_with(n)))) {
+                let mut d = detail.clone();
+                d["imports_read_back"] = json!(of.imports);
+                FAILURES.lock().unwrap().push(Failure { lang: lang.name(), class: "import-declaration-missing".into(), features: names.iter().map(|s| s.to_string()).collect(), detail: d });
+            }
         }
         Err(e) => {
             acc.outcomes.insert(report::fnv64(&format!("{}|rejected", lang.name())));
